@@ -17,6 +17,7 @@ MANIFEST_ENTRY = {
 
 def tasks(tier, seed):
     return [
+        func("bt.backtest.Backtest.run"),
         *UPDATE_ALL,
         func("bt.core.StrategyBase.adjust"),
         dict(kind="custom", module="props.lemmas", fn="c03_index_lemmas"),
